@@ -44,25 +44,33 @@ Strategy(mu, sf, var) ==
 Vec(lay, mu, sf, var) ==
     [label |-> "limits", affinity |-> FALSE, reps |-> Reps,
      strategy |-> Strategy(mu, sf, var),
-     nodes |-> [i \in DOMAIN lay |-> [name |-> NodeName(i), fits |-> "A,B", csel |-> TRUE, zone |-> "z1", taint |-> FALSE, override |-> "none", group |-> ""]],
+     nodes |-> [i \in 1..(Len(lay) + var.unfit) |-> [name |-> NodeName(i), fits |-> (IF i <= Len(lay) THEN "A,B" ELSE "-"), csel |-> TRUE, zone |-> "z1",
+                                                    taint |-> FALSE, override |-> "none", group |-> ""]],
      eds |-> [tmpl |-> "B", ruPaused |-> var.paused, frozen |-> var.frozen, cPaused |-> "", cUnpaused |-> "", cValid |-> "", active |-> "B",
               canary |-> "", cNodes |-> <<>>, desired |-> Len(lay), state |-> "Running"],
      rs |-> << [tmpl |-> "A", age |-> 9, status |-> "unknown", counters |-> <<0, 0, 0, 0>>, conds |-> <<>>],
                [tmpl |-> "B", age |-> 6, status |-> "active", counters |-> <<Len(lay), 0, 0, 0>>,
-                conds |-> << [type |-> "Active", true |-> ~var.paused /\ ~var.frozen, ltt |-> var.activeAge, lut |-> var.activeAge],
+                conds |-> << [type |-> "Active", true |-> var.activeTrue, ltt |-> var.activeAge, lut |-> var.activeAge],
                              [type |-> "LastFullSync", true |-> TRUE, ltt |-> 6, lut |-> 2] >>] >>,
      pods |-> Concat([i \in DOMAIN lay |-> PodFor(Cats[lay[i]], i)]),
      steps |-> << [op |-> "ERSReconcile", t |-> "B"] >>]
 
 V(paused, frozen, activeAge, interval, incr, maxParallel) ==
-    [paused |-> paused, frozen |-> frozen, activeAge |-> activeAge, interval |-> interval, incr |-> incr, maxParallel |-> maxParallel]
+    [paused |-> paused, frozen |-> frozen, activeTrue |-> ~paused /\ ~frozen, activeAge |-> activeAge, interval |-> interval, incr |-> incr,
+     maxParallel |-> maxParallel, unfit |-> 0]
+\* the replica set was paused / frozen until now: its Active condition is still False and old
+JustResumed(activeAge, incr) == [V(FALSE, FALSE, activeAge, 1, incr, 250) EXCEPT !.activeTrue = FALSE]
+\* extra nodes of the cluster that the template does not fit (they are listed but not targeted)
+WithUnfit(v, k) == [v EXCEPT !.unfit = k]
 VariantsQuick == { V(FALSE, FALSE, 4, 1, "5", 250), V(TRUE, FALSE, 4, 1, "5", 250), V(FALSE, TRUE, 4, 1, "5", 250),
-                   V(FALSE, FALSE, 0, 2, "1", 250), V(FALSE, FALSE, 3, 2, "1", 2), V(FALSE, FALSE, 2, 1, "34%", 250) }
+                   V(FALSE, FALSE, 0, 2, "1", 250), V(FALSE, FALSE, 3, 2, "1", 2), V(FALSE, FALSE, 2, 1, "34%", 250),
+                   JustResumed(4, "1"), WithUnfit(V(FALSE, FALSE, 4, 1, "34%", 250), 3) }
 VariantsThorough == VariantsQuick \cup { V(FALSE, FALSE, a, i, c, mp) : a \in {0, 1, 5}, i \in {1, 2}, c \in {"1", "2", "100%"}, mp \in {1, 3} }
 
 V0 == V(FALSE, FALSE, 4, 1, "5", 250)
 Space == { Vec(lay, mu, sf, V0) : lay \in Layouts, mu \in MaxUs, sf \in MaxSFs } \cup
-         { Vec(lay, "1", "0", var) : lay \in Layouts, var \in Variants }
+         { Vec(lay, "1", "0", var) : lay \in Layouts, var \in Variants } \cup
+         { Vec(lay, mu, "0", WithUnfit(V0, 3)) : lay \in Layouts, mu \in { m \in MaxUs : m \in {"25%", "50%"} } }
 
 ASSUME PrintT(<<"VECTORS", Cardinality(Space)>>)
 ASSUME ndJsonSerialize(OutFile, SetToSeq(Space))
